@@ -1121,4 +1121,14 @@ def geometry_role_free(repo: Repo) -> RuleRun:
 
 geometry_role_free.rule_id = "C09.GEOMETRY-ROLE-FREE"
 
-RULES = [arc_sense, purity, no_alias_store, affine_balance, unit_normal, direction_parts, transform_equals_methods, transform_routing, linear_parts, deep_copy, mirror_matrix, no_shared_parts, arguments_untouched, super_forwarding, inplace_then_read, invalidate_last, live_lengths, private_coordinates, live_arrays, displacement_copied, average_axis, unit_axis, mirror_sense, geometry_role_free]
+def applied_once(repo: Repo) -> RuleRun:
+    """'transforming an entity ... maps every dependent quantity consistently': a number the entity carries (side lengths, widths) is scaled once."""
+    from ..initchain import applied_once_rule
+
+    return applied_once_rule(repo, PROP, "C09.APPLIED-ONCE", floor=2)
+
+
+applied_once.rule_id = "C09.APPLIED-ONCE"
+
+
+RULES = [arc_sense, purity, no_alias_store, affine_balance, unit_normal, direction_parts, transform_equals_methods, transform_routing, linear_parts, deep_copy, mirror_matrix, no_shared_parts, arguments_untouched, super_forwarding, inplace_then_read, invalidate_last, live_lengths, private_coordinates, live_arrays, displacement_copied, average_axis, unit_axis, mirror_sense, geometry_role_free, applied_once]
